@@ -214,14 +214,15 @@ Classify(b) ==
 
 (* 1 iff b is well-formed, no option value has an alternative reading, and   *)
 (* serialising the expected fields gives b back (always, unless a uint value *)
-(* was sent with leading zero bytes)                                         *)
-Reserialises(b) ==
-    LET c == Classify(b)
-    IN  IF c[1] # "wf" THEN 0
-        ELSE IF \E i \in 1..Len(c[6]) : Len(c[6][i]) = 3 THEN 0
-        ELSE IF EncMsg(<< c[2], c[3], c[4], c[5],
-                          [i \in 1..Len(c[6]) |-> << c[6][i][1], c[6][i][2] >>], c[7] >>) = b
-             THEN 1 ELSE 0
+(* was sent with leading zero bytes); c is Classify(b)                       *)
+ReserialisesC(c, b) ==
+    IF c[1] # "wf" THEN 0
+    ELSE IF \E i \in 1..Len(c[6]) : Len(c[6][i]) = 3 THEN 0
+    ELSE IF EncMsg(<< c[2], c[3], c[4], c[5],
+                      [i \in 1..Len(c[6]) |-> << c[6][i][1], c[6][i][2] >>], c[7] >>) = b
+         THEN 1 ELSE 0
+
+Reserialises(b) == ReserialisesC(Classify(b), b)
 
 -----------------------------------------------------------------------------
 (* 5. The parser as an automaton that consumes one byte per step.            *)
